@@ -35,7 +35,18 @@ func smallSpecs() []smallSpec {
 	bv := func(x bool) *Val { return &Val{Kind: "b", B: x} }
 	inner := &Ty{Kind: "list", Elem: u8, N: 2}
 	pair := &Ty{Kind: "cont", Fields: []*Ty{u8, inner}}
+	rootT := &Ty{Kind: "root"}
+	rootList := &Ty{Kind: "list", Elem: rootT, N: 4}
+	nz := make([]byte, 32)
+	nz[0], nz[31] = 7, 9
 	return []smallSpec{
+		// sub-views whose backing is a shared zero node (a zero Root read out of a default)
+		// appended / set into a sibling list
+		{&Ty{Kind: "cont", Fields: []*Ty{rootList, {Kind: "vec", Elem: rootT, N: 2}}}, []hop{
+			{kind: "get", i: 0}, {kind: "get", i: 1}, {kind: "get", h: 2, i: 0}, {kind: "get", h: 1, i: 0},
+			{kind: "append", h: 1, src: lit(rootT, &Val{Kind: "x", Bytes: nz})}, {kind: "append", h: 1, src: srcSpec{kind: "h", h: 3}},
+			{kind: "append", h: 2, src: srcSpec{kind: "h", h: 3}}, {kind: "copy", h: 1}, {kind: "append", h: 4, src: srcSpec{kind: "h", h: 3}},
+			{kind: "set", h: 1, i: 0, src: srcSpec{kind: "h", h: 3}}, {kind: "pop", h: 1}}},
 		{&Ty{Kind: "list", Elem: u64, N: 5}, []hop{
 			{kind: "append", src: lit(u64, n(7))}, {kind: "append", src: lit(u64, n(0))}, {kind: "pop"},
 			{kind: "set", i: 0, src: lit(u64, n(9))}, {kind: "set", i: 3, src: lit(u64, n(1))}, {kind: "set", i: 4, src: lit(u64, n(2))},
@@ -91,7 +102,7 @@ func exhaustiveHistories(out *caseOut, cfg string, h tree.HashFn, maxLen int, ex
 }
 
 func randomHistories(out *caseOut, tag string, cfg string, h tree.HashFn, salt int64, n int, mk func(g *gen) *histGen) {
-	g := &gen{r: newRng(salt), noBool: true, maxElem: 10}
+	g := &gen{r: newRng(salt), noBool: !strings.HasSuffix(cfg, "!"), maxElem: 10}
 	hg := mk(g)
 	for k := 0; k < n; k++ {
 		ty := g.ty(1 + g.r.Intn(3))
@@ -197,6 +208,66 @@ func boundaryHistories(out *caseOut, cfg string, h tree.HashFn, salt int64, with
 	}
 }
 
+// histories in which the inserted value's backing is a node that already sits in the tree
+// (shared zero nodes read out of defaults, elements re-inserted where they are): no-op
+// rebinds must still never touch an existing node
+func sharingHistories(out *caseOut, cfg string, h tree.HashFn, salt int64) {
+	g := &gen{r: newRng(salt), maxElem: 6}
+	rootT, boolT := &Ty{Kind: "root"}, &Ty{Kind: "bool"}
+	nz := make([]byte, 32)
+	nz[0], nz[31] = 7, 9
+	litRoot := srcSpec{kind: "lit", t: rootT, v: &Val{Kind: "x", Bytes: nz}}
+	type sc struct {
+		ty  *Ty
+		ops []hop
+	}
+	var cases []sc
+	for _, lim := range []uint64{2, 4, 5, 8, 1 << 40} {
+		ct := &Ty{Kind: "cont", Fields: []*Ty{{Kind: "list", Elem: rootT, N: lim}, {Kind: "vec", Elem: rootT, N: 2}}}
+		for pre := 0; pre <= 3; pre++ {
+			ops := []hop{{kind: "get", h: 0, i: 0}, {kind: "get", h: 0, i: 1}, {kind: "get", h: 2, i: 0}}
+			for k := 0; k < pre; k++ {
+				ops = append(ops, hop{kind: "append", h: 1, src: litRoot})
+			}
+			ops = append(ops, hop{kind: "snap", h: 0}, hop{kind: "snap", h: 1}, hop{kind: "copy", h: 1}, hop{kind: "htr", h: 0},
+				hop{kind: "append", h: 1, src: srcSpec{kind: "h", h: 3}}, hop{kind: "len", h: 4}, hop{kind: "htr", h: 4}, hop{kind: "htr", h: 0}, hop{kind: "ser", h: 0},
+				hop{kind: "append", h: 4, src: srcSpec{kind: "h", h: 3}}, hop{kind: "len", h: 1}, hop{kind: "htr", h: 0}, hop{kind: "memo"},
+				hop{kind: "pop", h: 1}, hop{kind: "append", h: 1, src: srcSpec{kind: "h", h: 3}}, hop{kind: "htr", h: 0}, hop{kind: "ser", h: 1})
+			cases = append(cases, sc{ct, ops})
+		}
+		// List[bool] is a complex list whose false elements are the shared zero node
+		bl := &Ty{Kind: "list", Elem: boolT, N: lim}
+		for pre := 0; pre <= 3; pre++ {
+			var ops []hop
+			for k := 0; k < pre; k++ {
+				ops = append(ops, hop{kind: "append", h: 0, src: srcSpec{kind: "lit", t: boolT, v: &Val{Kind: "b", B: true}}})
+			}
+			ops = append(ops, hop{kind: "snap", h: 0}, hop{kind: "copy", h: 0}, hop{kind: "htr", h: 0},
+				hop{kind: "append", h: 0, src: srcSpec{kind: "lit", t: boolT, v: &Val{Kind: "b", B: false}}}, hop{kind: "len", h: 1}, hop{kind: "htr", h: 1}, hop{kind: "htr", h: 0},
+				hop{kind: "append", h: 1, src: srcSpec{kind: "lit", t: boolT, v: &Val{Kind: "b", B: false}}}, hop{kind: "len", h: 0}, hop{kind: "ser", h: 0}, hop{kind: "memo"},
+				hop{kind: "pop", h: 0}, hop{kind: "append", h: 0, src: srcSpec{kind: "lit", t: boolT, v: &Val{Kind: "b", B: false}}}, hop{kind: "htr", h: 0}, hop{kind: "ser", h: 1})
+			cases = append(cases, sc{bl, ops})
+		}
+	}
+	// re-inserting an element where it already is, then mutating next to it
+	for k := 0; k < 12; k++ {
+		e := g.ty(1)
+		for !isComposite(e) {
+			e = g.ty(1)
+		}
+		lt := &Ty{Kind: "list", Elem: e, N: uint64(4 + g.r.Intn(5))}
+		ops := []hop{{kind: "append", h: 0, src: srcSpec{kind: "lit", t: e, v: g.val(e)}}, {kind: "append", h: 0, src: srcSpec{kind: "lit", t: e, v: g.val(e)}},
+			{kind: "get", h: 0, i: 1}, {kind: "snap", h: 0}, {kind: "copy", h: 0}, {kind: "htr", h: 0}, {kind: "set", h: 0, i: 1, src: srcSpec{kind: "h", h: 1}},
+			{kind: "htr", h: 0}, {kind: "append", h: 0, src: srcSpec{kind: "h", h: 1}}, {kind: "htr", h: 2}, {kind: "ser", h: 2}, {kind: "htr", h: 0}, {kind: "memo"}, {kind: "pop", h: 0}, {kind: "htr", h: 0}}
+		cases = append(cases, sc{lt, ops})
+	}
+	for _, c := range cases {
+		s := &hstate{h: h, count: &hashCalls}
+		s.push(c.ty, c.ty.Def().Default(nil))
+		histCase(out, "share", cfg, c.ty, nil, "default", c.ops, runScript(s, c.ops))
+	}
+}
+
 func TestC04(t *testing.T) {
 	out := openOut(t, "C04")
 	defer out.close()
@@ -232,7 +303,8 @@ func TestC05(t *testing.T) {
 			return append(o2, hop{kind: "copy", h: 0}, hop{kind: "snap", h: 0})
 		})
 		boundaryHistories(out, "sha", h, 540, true)
-		randomHistories(out, "rand", "sha", h, 500, n, func(g *gen) *histGen { return &histGen{g: g, r: g.r, snaps: true} })
+		sharingHistories(out, "sha!", h, 550)
+		randomHistories(out, "rand", "sha!", h, 500, n, func(g *gen) *histGen { return &histGen{g: g, r: g.r, snaps: true} })
 	})
 }
 
@@ -274,7 +346,8 @@ func TestC06(t *testing.T) {
 			rec(nil)
 		}
 		boundaryHistories(out, "sha", h, 640, false)
-		randomHistories(out, "rand", "sha", h, 600, n, func(g *gen) *histGen { return &histGen{g: g, r: g.r, memos: true, snaps: true} })
+		sharingHistories(out, "sha!", h, 650)
+		randomHistories(out, "rand", "sha!", h, 600, n, func(g *gen) *histGen { return &histGen{g: g, r: g.r, memos: true, snaps: true} })
 	})
 }
 
